@@ -79,6 +79,7 @@ type Fold struct {
 	Params []string // last one is the index variable
 	Elem   Expr
 	Op     string
+	Mod    Expr // modulus of a mulmod fold
 	Src    string
 }
 
@@ -255,7 +256,7 @@ func LoadContracts(cs *ContractSet, pkgPath, file string) error {
 			}
 			cs.Axioms = append(cs.Axioms, &Axiom{Pkg: pkgPath, Name: m[1], Src: m[3], E: e, Vars: vs})
 		case "fold":
-			m := regexp.MustCompile(`^([A-Za-z0-9_]+)\(([^)]*)\)\s*:=\s*(.*?)\s+op\s+(mul|add)$`).FindStringSubmatch(rest)
+			m := regexp.MustCompile(`^([A-Za-z0-9_]+)\(([^)]*)\)\s*:=\s*(.*?)\s+op\s+(mul|add|mulmod)(?:\s+(.*))?$`).FindStringSubmatch(rest)
 			if m == nil {
 				return fail(fmt.Errorf("bad fold"))
 			}
@@ -263,11 +264,18 @@ func LoadContracts(cs *ContractSet, pkgPath, file string) error {
 			if err != nil {
 				return fail(err)
 			}
+			var modE Expr
+			if m[4] == "mulmod" {
+				modE, err = ParseSpec(m[5])
+				if err != nil {
+					return fail(err)
+				}
+			}
 			var ps []string
 			for _, p := range strings.Split(m[2], ",") {
 				ps = append(ps, strings.TrimSpace(p))
 			}
-			cs.Folds[m[1]] = &Fold{Pkg: pkgPath, Name: m[1], Params: ps, Elem: e, Op: m[4], Src: rest}
+			cs.Folds[m[1]] = &Fold{Pkg: pkgPath, Name: m[1], Params: ps, Elem: e, Op: m[4], Mod: modE, Src: rest}
 		case "global":
 			e, err := ParseSpec(rest)
 			if err != nil {
